@@ -162,6 +162,25 @@ proof fn lemma_walk_path<S: State, SP: StateSpace<StateType = S>>(t: Seq<Node<S>
         }
     }
 }
+/// one step towards the root: a non-root node has a parent inside the tree whose key (cost rank, tie) is strictly smaller; the root has none
+proof fn lemma_rank_step<S: State>(t: Seq<Node<S>>, tie: Seq<nat>, i: int)
+    requires t_shape(t), t_ranked(t, tie), 0 <= i < t.len()
+    ensures
+        i == 0 ==> t[i].parent_index is None,
+        i >= 1 ==> t[i].parent_index is Some && t[i].parent_index->Some_0 < t.len()
+            && (ford(t[t[i].parent_index->Some_0 as int].cost) < ford(t[i].cost)
+                || (ford(t[t[i].parent_index->Some_0 as int].cost) == ford(t[i].cost) && tie[t[i].parent_index->Some_0 as int] < tie[i])),
+        ford(t[i].cost) >= 0,
+        i >= 1 ==> ford(t[t[i].parent_index->Some_0 as int].cost) >= 0,
+{
+    reveal(t_shape); reveal(t_ranked);
+    ax_ford(t[i].cost, t[i].cost);
+    if i >= 1 {
+        let p = t_par(t, i);
+        ax_ford(t[p].cost, t[i].cost);
+    }
+}
+
 /// C15 (RRT*): on a ranked tree the parent chain is finite: t_up is total (its `decreases` is the argument) and ends at the root
 proof fn lemma_ranked_chain<S: State>(t: Seq<Node<S>>, tie: Seq<nat>, i: int)
     requires t_shape(t), t_ranked(t, tie), 0 <= i < t.len()
@@ -472,12 +491,10 @@ ann('fn reconstruct_path', 'loop while#1', r"""
 """, 'rs.reconstruct_path.loop')
 ann('fn reconstruct_path', 'loop-end while#1', r"""
             proof {
-                reveal(t_shape); reveal(t_ranked);
                 let t = self.tree@;
                 axiom_state_clone::<S>(t[index as int].state, path_states@.last());
                 g_w = g_w.push(index as int);
-                ax_ford(t[index as int].cost, t[index as int].cost);
-                if current_index is Some { ax_ford(t[current_index->Some_0 as int].cost, t[index as int].cost); }
+                lemma_rank_step(t, g_tie, index as int);
             }
 """, 'rs.reconstruct_path.step')
 ann('fn reconstruct_path', 'loop-after while#1', r"""
@@ -804,7 +821,7 @@ ann('fn solve', 'loop-end while#2', r"""
                     }
                 }
 """, 'rs.solve.rewire.step', tags=['C01', 'C03', 'C04', 'C05', 'C15', 'C17'])
-ann('fn solve', 'before /if new_node_ref\.parent_index == Some\(neighbour_idx\) \{/', r"""
+ann('fn solve', 'after /let new_node_ref = &self\.tree\[new_node_index\];\s*let neighbour_node = &self\.tree\[neighbour_idx\];/', r"""
                 proof { assert(new_node_ref.parent_index == g1[new_node_index as int].parent_index); }
 """, 'rs.solve.rewire.pre')
 ann('fn solve', 'before /return Ok\(self\.reconstruct_path\(self\.tree\.len\(\) - 1\)\);/', r"""
